@@ -400,7 +400,9 @@ def split_uri(uri):
     else:
         try:
             scheme, netloc, path, query, fragment = parse.urlsplit(uri)
-        except UnicodeError:
+        except ValueError:
+            # UnicodeError is a ValueError; urlsplit also raises plain
+            # ValueError for e.g. an unbalanced IPv6 bracket in the netloc
             raise ParsingError("Bad URI")
 
     return (
